@@ -170,6 +170,101 @@ func init() {
 		}
 		e.P("/-- segmentfile.go: persistentSegmentFile.close flushes the bufio.Writer before closing the file -/")
 		e.P("def persistentFlushBeforeClose : Bool := %s", LeanBool(flush))
+		// M3u8: the token written into the segment URIs is url.QueryEscape(token)
+		escaped, eok := false, false
+		if m3 != nil && m3.Body != nil {
+			reassigned, rawUse, escUse := false, false, false
+			ast.Inspect(m3.Body, func(n ast.Node) bool {
+				switch x := n.(type) {
+				case *ast.AssignStmt:
+					if len(x.Lhs) == 1 && Src(x.Lhs[0]) == "token" && len(x.Rhs) == 1 {
+						if norm(x.Rhs[0]) == "url.QueryEscape(token)" && x.Tok == token.ASSIGN {
+							reassigned = true
+						} else {
+							rawUse = true // some other rewriting of the token: not recognised
+						}
+					}
+				case *ast.CallExpr:
+					if Src(x.Fun) == "fmt.Fprintf" {
+						for _, a := range x.Args[1:] {
+							switch norm(a) {
+							case "token":
+								if !reassigned {
+									rawUse = true
+								}
+							case "url.QueryEscape(token)":
+								escUse = true
+							}
+						}
+					}
+				}
+				return true
+			})
+			switch {
+			case rawUse && !escUse && !reassigned:
+				escaped, eok = false, true
+			case !rawUse && (reassigned || escUse):
+				escaped, eok = true, true
+			}
+		}
+		if !eok {
+			e.Unknown("Playlist.M3u8.token")
+		}
+		e.P("/-- playlist.go: M3u8 writes the caller's token into the segment URIs through url.QueryEscape -/")
+		e.P("def m3u8TokenEscaped : Bool := %s", LeanBool(escaped))
+		// NewSegmentGenerator / flushFrame: the first segment takes its start time from its first frame
+		first, fok := false, false
+		{
+			sets := false
+			if fd := FuncDecl(sgF, "", "NewSegmentGenerator"); fd != nil && fd.Body != nil {
+				for _, st := range fd.Body.List {
+					if norm(st) == "sg.startPending = true" {
+						sets = true
+					}
+				}
+			}
+			takes, mentions := false, false
+			if fd := FuncDecl(sgF, "SegmentGenerator", "flushFrame"); fd != nil && fd.Body != nil && len(fd.Body.List) > 0 {
+				if is, ok := fd.Body.List[0].(*ast.IfStmt); ok && norm(is.Cond) == "sg.startPending" && is.Else == nil && len(is.Body.List) == 2 {
+					a, b := norm(is.Body.List[0]), norm(is.Body.List[1])
+					if (a == "sg.startPending = false" && b == "sg.current.segmentStartPts = frame.Pts") ||
+						(b == "sg.startPending = false" && a == "sg.current.segmentStartPts = frame.Pts") {
+						takes = true
+					}
+				}
+				mentions = strings.Contains(Src(fd), "startPending")
+			}
+			anywhere := strings.Contains(Src(sgF), "startPending")
+			switch {
+			case sets && takes:
+				first, fok = true, true
+			case !anywhere && !mentions:
+				first, fok = false, true // the code before the fix: segmentOpen(0)
+			}
+		}
+		if !fok {
+			e.Unknown("SegmentGenerator.startPending")
+		}
+		e.P("/-- segmentgenerator.go: NewSegmentGenerator sets startPending and flushFrame gives the open segment the PTS of the first frame written -/")
+		e.P("def firstSegmentStartsAtFirstFrame : Bool := %s", LeanBool(first))
+		// config.HlsFragment(): the smallest fragment length the server ever configures
+		minFrag, mok2 := int64(0), false
+		if fd := FuncDecl(Parse("config/global.go"), "", "HlsFragment"); fd != nil && fd.Body != nil && len(fd.Body.List) == 2 {
+			if is, ok := fd.Body.List[0].(*ast.IfStmt); ok && is.Else == nil && len(is.Body.List) == 1 {
+				cond := norm(is.Cond)
+				const pre = "globalC == nil || globalC.HlsFragment < "
+				if strings.HasPrefix(cond, pre) && norm(fd.Body.List[1]) == "return globalC.HlsFragment" {
+					if v, err := strconv.ParseInt(cond[len(pre):], 0, 64); err == nil && norm(is.Body.List[0]) == "return "+cond[len(pre):] {
+						minFrag, mok2 = v, true
+					}
+				}
+			}
+		}
+		if !mok2 {
+			e.Unknown("config.HlsFragment")
+		}
+		e.P("/-- config/global.go: HlsFragment() returns max(configured value, this) -/")
+		e.P("def hlsFragmentMin : Nat := %d", minFrag)
 		// the call order of reapSegment: close, open, flush audio
 		order := []string{}
 		if fd := FuncDecl(sgF, "SegmentGenerator", "reapSegment"); fd != nil {
